@@ -82,10 +82,10 @@ func New(prop string) *R {
 	return r
 }
 
-func (r *R) Seed() int64   { return r.res.Seed }
-func (r *R) Batch() int    { return r.res.Batch }
-func (r *R) Tier() string  { return r.res.Tier }
-func (r *R) Quick() bool   { return r.res.Tier != "thorough" }
+func (r *R) Seed() int64  { return r.res.Seed }
+func (r *R) Batch() int   { return r.res.Batch }
+func (r *R) Tier() string { return r.res.Tier }
+func (r *R) Quick() bool  { return r.res.Tier != "thorough" }
 func (r *R) Pick(quick, thorough int) int {
 	if r.Quick() {
 		return quick
